@@ -53,6 +53,16 @@ def handle (ep : Option C03.Env) (w : Nat) (op : String) (args : List String) (g
       let ok := r.trace == r0.trace
       some { model := if ok then model else "trace-differs", spec := [spec], tags := [f, if spec == "0" then "eq" else "ne"] }
     | _ => none
+  | "ct_rel", [f, _, k1, k2] => do
+    -- two secret scalars of the same public length: the recorded sequences of group-level operations must be identical, and both
+    -- results must be the group-law results (decided in the oracle against the basic algorithm; the value side is C03/C11/C12/C17's)
+    let k1 ← (parseBn w k1).map (Relic.Model.Bn.toInt (2 ^ w))
+    let k2 ← (parseBn w k2).map (Relic.Model.Bn.toInt (2 ^ w))
+    let sameLen := bitLen k1.natAbs == bitLen k2.natAbs && (k1 < 0) == (k2 < 0)
+    if !sameLen then some { model := got, spec := [got], tags := ["rel.skip"] } else
+    let ok := got.startsWith "same=1 eq=1 "
+    some { model := got, spec := [if ok then got else "same=1 eq=1 … (the operation sequence must not depend on the value of a scalar of this length)"],
+           tags := ["rel." ++ f, "len" ++ toString ((bitLen k1.natAbs + 63) / 64 * 64)] }
   | "ct_trace", f :: rest =>
     match f, rest with
     | "ep_monty", [p, k] => do
